@@ -99,6 +99,17 @@ def inj_pkg_missing_all(files, cfg, level):
     cfg["packages"][MOD + "/nope"] = {"config": {"all": True}}
 
 
+def inj_pkg_missing_prefix(files, cfg, level):
+    # does not exist; its path is a proper *string* prefix of the configured sibling .../p1 (not a path prefix: nothing is rooted there)
+    cfg["packages"][MOD + "/p"] = {"config": {"all": True}}
+
+
+def inj_pkg_unloadable_prefix(files, cfg, level):
+    # exists but every file is excluded by build constraints; .../p1 extends its name without a separator
+    files["p/x.go"] = "//go:build neverset\n\npackage p\n\ntype Hidden interface{ H() }\n"
+    cfg["packages"][MOD + "/p"] = {"config": {"include-interface-regex": ".*"}}
+
+
 def inj_pkg_missing_listed(files, cfg, level):
     cfg["packages"][MOD + "/nope"] = {"interfaces": {"X": {}}}
 
@@ -252,6 +263,8 @@ INVALID = {
     "template-data-lookalike-wrong-type": (["pkg", "iface", "cfg"], td_lookalike),
     "package-missing-all": (["root"], inj_pkg_missing_all),
     "package-missing-listed": (["root"], inj_pkg_missing_listed),
+    "package-missing-name-prefix-of-sibling": (["root"], inj_pkg_missing_prefix),
+    "package-unloadable-name-prefix-of-sibling": (["root"], inj_pkg_unloadable_prefix),
     "package-missing-foreign-module": (["root"], inj_pkg_missing_plain),
     "package-type-error": (["pkg"], inj_type_error),
     "package-syntax-error": (["pkg"], inj_syntax_error),
